@@ -8,9 +8,10 @@ BOUNDS = ('std-container fillers (extension/histogram/std.hpp): fill_histogram /
           'cumulative_histogram(vector) on arbitrary vectors of 0..8 symbolic counts in [0,100000]: prefix sums, monotone, last == total; '
           'helpers of gil::histogram that do not touch the container, fully symbolic: key_from_pixel, key_from_tuple, is_tuple_compatible, detail::tuple_compare (the limit test), detail::tuple_limit, sum/nearest_key of an empty histogram; '
           'thorough tier, attempt with the _Prime_rehash_policy model (rt/rt_hash.c, 12 GB cap): sparse histogram<int> fill_histogram over 1 symbolic gray8 pixel (bin widths 1, 2, 16; accumulate onto / replacing one previous bin with a symbolic key), '
-          'over 2 symbolic pixels without previous contents, and 1-D cumulative_histogram over 1 pixel: sum == number of pixels, bin of a symbolic key == number of pixels with value/bin_width == key, cumulative == number of pixels with key <= probed key')
+          'over 2 symbolic pixels without previous contents, and 1-D cumulative_histogram over 1 pixel: sum == number of pixels, bin of a symbolic key == number of pixels with value/bin_width == key, cumulative == number of pixels with key <= probed key'
+          '; dense (sparsefill=false) non-accumulating re-fill of a populated 1-D sparse histogram with limits: previous contents gone, sum == pixels inside the limits (keys concrete, pixel low bits symbolic where stated)')
 OUTSIDE = ('sparse gil::histogram (std::unordered_map) beyond 2 insertions: 2 pixels plus one previous bin exceeded 12 GB, cumulative_histogram over 2 pixels gave no verdict in 850 s; therefore NOT claimed for the sparse histogram: '
-           'mask and lower/upper limit filtering inside fill (only the limit predicate tuple_compare is checked), multi-channel keys through the container, dense pre-fill (detail::filler<1>), sub_histogram over axes (marginalisation) and over key ranges, '
+           'mask and lower/upper limit filtering inside fill (only the limit predicate tuple_compare is checked), multi-channel keys through the container, dense pre-fill (detail::filler<1>) beyond the re-fill queries named in BOUNDS, sub_histogram over axes (marginalisation) and over key ranges, '
            'normalize, multi-axis cumulative_histogram, min_key/max_key/sorted_keys, equals; std::map filler and cumulative (red-black tree rebalancing is out-of-line code in libstdc++.so, not modelled); '
            'agreement of the std containers with the sparse histogram beyond the 1-pixel case; '
            'std-container sum / cumulative / agreement clauses with all 8 bits of every pixel symbolic (counting problem: no verdict in 150 s on any back end; they follow from the per-bin exactness proved for every bin k of fully symbolic pixels, '
@@ -82,4 +83,8 @@ def queries(tier, seed):
     for q in qs:
         if q.name in names: continue
         names.add(q.name); out.append(q)
+    # dense re-fill without accumulate over a populated 1-D histogram with limits (pixels: upper bits concrete from the seed, nb low bits symbolic)
+    for (w, h, nb, sd, pk, lo, hi, t) in ((1, 1, 0, 1, 8, 3, 5, Q_), (2, 1, 0, 2, 1, 3, 5, Q_), (1, 1, 2, 3, 9, 4, 6, T_), (2, 2, 0, 4, 200, 10, 12, T_)):
+        out.append(Q('sparse_refill/gray8/%dx%d_bits%d_s%d_prev%d_lim%d_%d' % (w, h, nb, sd, pk, lo, hi), 'C19/hist.cpp', 'h_sparse_refill', rt=['hash'], params=[w, h, 1, 0, nb, sd, pk, lo, hi],
+                    unwind=16, rt_unwind=40, tier=t, timeout=600, mem_gb=12, note='concrete keys: the hash table is executed through the model, pixel low bits symbolic only where stated'))
     return out
